@@ -112,3 +112,10 @@ Qed.
 (* the flags row of a method is what its wrapper scans for *)
 Lemma refine_action_flags o : fst (action_row o) = op_flags o.
 Proof. rewrite refine_action_row. reflexivity. Qed.
+
+(* the premise of refine_usage / refine_key_action is inhabited: a primary key without user ids and subkeys reports {Certify} *)
+Example refine_usage_premise :
+  comp_flags_with newest {| k_present := true; k_primary := true; k_uids := []; k_bind := []; k_subs := [];
+                            k_public := false; k_protected := false; k_unl := true; k_enforce := true |} None
+  = map (fun i => FOk ((fun _ => CERTIFY) (Z.of_nat i))) (seq 0 1).
+Proof. reflexivity. Qed.
